@@ -5,9 +5,17 @@ import StraxModel.Props.C07
 
   Model: `Model/Storage.lean` (`saveAll` = `Saver.save_from/save/close` + `FileSaver`, `loadAll` =
   `StorageBackend.loader/_read_and_format_chunk` + `FileSytemBackend._read_chunk`), on top of the
-  chunk algebra and rechunker of C07.  All theorems hold for every initial `argmin` constant `a0` of
-  `Rechunker.get_splits` (the driver uses `Generated.getSplitsArgmin0`), every metadata header and
-  every run id.
+  chunk algebra and rechunker of C07.  All theorems except `roundtrip_rechunk_partial` hold for every
+  initial `argmin` constant `a0` of `Rechunker.get_splits` (the driver uses
+  `Generated.getSplitsArgmin0`, which is what `roundtrip_rechunk_partial` is about), every metadata
+  header and every run id.  Byte sizes (`nbytes`, `filesize` via the uninterpreted `blobSize`), the
+  executor variant (`saveAllExec`, any completion order; `loadAllExec`, futures in chunk order) and
+  annotated super-run chunks are part of the model.
+
+  Scope of the rechunking round trip: `roundtrip_rechunk_partial` covers PLAIN streams only (C07's
+  `Strax.LawAbiding` excludes run annotations; it composes with `Strax.C07.rechunk_stream_partial`);
+  annotated super-run streams saved with rechunking are covered relative to the rechunker by
+  `loaded_is_rechunker_output`, and without rechunking in full by `roundtrip_plain_superrun`.
 
   What the loader cannot restore is explicit: `restore hdr rid c` is `c` with `data_type`,
   `data_kind`, `target_size_mb` taken from the metadata header and `superrun` reset to the
@@ -18,7 +26,10 @@ import StraxModel.Props.C07
   * `lawAbidingB s`  — the laws of chunking: adjacent, `start ≤ end`, rows `start ≤ time < endt ≤ end`,
                         all rows sorted by time;
   * `runOkB rid c`   — conventions of a stored run: `0 ≤ start`, run id `rid`, subruns that survive
-                        json (`sort_keys`) + the constructor's stable sort, present for a super-run id;
+                        json (`sort_keys`) + the constructor's stable sort by (start, end), present
+                        for a super-run id;
+  * `spansOkB` / `annotatedOkB` — sub-run spans in time order, not overlapping, pairwise different in
+                        (start, end) (zero-length spans allowed), ids in any order;
   * `storableB rid c` — what the plain round trip really needs of ONE chunk (no adjacency, no
                         sortedness): a valid `strax.Chunk` of run `rid`.
 -/
@@ -108,17 +119,22 @@ theorem loaded_is_rechunker_output (a0 : Int) (hdr : Header) (rid : String) (s o
   · rw [saveAll_eq, hre]; rfl
   · exact loadAll_saved hdr rid out hne (fun c hc => List.all_eq_true.1 hst c hc)
 
-/-- `roundtrip_rechunk` (DESIGN.md §6 C03), by composing the storage theorems with the C07 stream
-theorem `Strax.C07.rechunk_stream`: a C07-law-abiding stream (`Strax.LawAbiding`: every chunk
+/-- `roundtrip_rechunk` (DESIGN.md §6 C03) for PLAIN streams — hence `_partial`: the hypothesis
+`Strax.LawAbiding s` (C07) excludes chunks carrying `subruns` annotations, so annotated super-run
+streams saved with rechunking are NOT covered here; for them `loaded_is_rechunker_output` shows that
+the loader returns exactly the rechunker's output, and `roundtrip_plain_superrun` gives the full round
+trip without rechunking.  Within plain streams nothing is missing: every conjunct of the full
+statement is proved.  By composing the storage theorems with the C07 stream
+theorem `Strax.C07.rechunk_stream_partial`: a C07-law-abiding stream (`Strax.LawAbiding`: every chunk
 well-formed — non-negative start, rows sorted, of positive duration and inside the chunk — without
 run annotations, adjacent ranges, one data type and one run) of a plain run, with targets of at
 least one row, saved WITH rechunking (the `argmin` constant being the one in the source today)
 and loaded back: both steps succeed, the rows are the rows written in the same order, the
 overall range is the one written, the loaded stream obeys the laws of chunking and carries the
 run id, and every boundary of the loaded stream is a boundary of the written one or lies
-strictly inside a row-free gap.  Super-run ids are outside (C07's `LawAbiding` excludes run
+where no row covers it (`boundaryRuleB`).  Super-run ids are outside (C07's `LawAbiding` excludes run
 annotations); `loaded_is_rechunker_output` covers them relative to the rechunker. -/
-theorem roundtrip_rechunk (hdr : Header) (rid : String) (s : List Chunk)
+theorem roundtrip_rechunk_partial (hdr : Header) (rid : String) (s : List Chunk)
     (hne : s ≠ []) (hl : Strax.LawAbiding s = true) (ht : ∀ c ∈ s, 1 ≤ c.target)
     (hrid : s.head?.bind (·.runId) = some rid) (hplain : rid.startsWith "_" = false)
     (hmd : hdr.runId.startsWith "_" = false) :
@@ -129,7 +145,7 @@ theorem roundtrip_rechunk (hdr : Header) (rid : String) (s : List Chunk)
       loaded.getLast?.map (·.stop) = s.getLast?.map (·.stop) ∧
       lawAbidingB loaded = true ∧ (∀ c ∈ loaded, c.runId = some rid) ∧
       boundaryRuleB s loaded = true := by
-  obtain ⟨out, hre, hrows, hstart, hstop, hlaw, hrun, _, hb⟩ := Strax.C07.rechunk_stream s hl ht
+  obtain ⟨out, hre, hrows, hstart, hstop, hlaw, hrun, _, hb⟩ := Strax.C07.rechunk_stream_partial s hl ht
   obtain ⟨a, l, rfl⟩ : ∃ a l, s = a :: l := by
     cases s with
     | nil => exact absurd rfl hne
@@ -399,7 +415,7 @@ theorem zero_length_subrun_old_counterexample :
   simp [sortRunsOld, sortRuns, runLe, jsonRuns, runsOverlap, mergeSort_pair]
 
 /-- … and with the code as it is now the witness chunk round-trips -/
-theorem zero_length_subrun_roundtrip (a0 : Int) :
+theorem zero_length_subrun_roundtrip_example (a0 : Int) :
     ∃ md files, saveAll a0 false exHdr [exZero] = .ok (md, files) ∧
       loadAll md files = .ok [restore exHdr "_s" exZero] := by
   have hs : spansOkB [⟨"b", 0, 0⟩, ⟨"a", 0, 5⟩] = true := by decide
@@ -474,7 +490,7 @@ def exOut : List Chunk :=
     { dataType := "d", kind := "k", runId := some "r", start := 3500, stop := 5000,
       rows := [⟨4000, 4001, 2⟩], subruns := none, superrun := [⟨"r", 3500, 5000⟩], target := 1 } ]
 example : lawAbidingB exS = true ∧ exS.all (runOkB "r") = true := by decide +kernel
-/-- … and those of `roundtrip_rechunk` -/
+/-- … and those of `roundtrip_rechunk_partial` -/
 example : exS ≠ [] ∧ Strax.LawAbiding exS = true ∧ (∀ c ∈ exS, 1 ≤ c.target) ∧
     exS.head?.bind (·.runId) = some "r" ∧ ("r" : String).startsWith "_" = false := by decide +kernel
 example : rechunkAll (-1) ⟨true, ("r" : String).startsWith "_", none⟩ exS = .ok exOut :=
